@@ -84,10 +84,10 @@ def targets(ctx):
         except Guarded as g:
             found = [(f"raises_{g.where}_{type(g.exc).__name__}", str(g))]
         for clause, detail in found:
-            where = cm.localise(schema, mi, tree, fails_clause(route, clause))
-            if unknown and where.startswith("interaction"):
-                where = "unknown_fields"
-            fails.append(Failure(clause, f"{clause}|{route}|{where}", f"msg={name} tree={tree!r} :: {detail}"))
+            for where in cm.culprits(schema, mi, tree, fails_clause(route, clause)):
+                if unknown and where.startswith("interaction"):
+                    where = "unknown_fields"
+                fails.append(Failure(clause, f"{clause}|{route}|{where}", f"msg={name} tree={tree!r} :: {detail}"))
         kinds = cm.labels_for(schema, mi, tree)
         marks = 0
         descr = [cm.describe(schema, fi, tree[fi.name]) for fi in mi.fields if fi.name in tree]
